@@ -183,6 +183,11 @@ func (c *Case) script() (*Script, error) {
 
 func canonicalSim(numcpu int) SimCfg { return SimCfg{NumCPU: numcpu, Policy: "canonical"} }
 
+// baseSim is the canonical schedule with the machine configuration of the case
+func baseSim(c *Case) SimCfg {
+	return SimCfg{NumCPU: c.Sim.NumCPU, GoMaxProcs: c.Sim.GoMaxProcs, Policy: "canonical"}
+}
+
 func clientOutcome(r *RunOut) Outcome {
 	if len(r.Outcomes) > 1 && len(r.Outcomes[1]) > 0 {
 		return r.Outcomes[1][len(r.Outcomes[1])-1]
@@ -241,7 +246,7 @@ func (o *Obs) finishTest(c *Case, r *RunOut) {
 func twoRuns(c *Case, sc *Script, b Budgets, o *Obs, judge func(name string, r *RunOut)) (base, test *RunOut) {
 	b.KeepLog = keepLog
 	if !c.Sim.UseDecs {
-		base = runScript(sc, canonicalSim(c.Sim.NumCPU), b)
+		base = runScript(sc, baseSim(c), b)
 		o.absorb(base)
 		judge("base", base)
 		c.resolve(base.Res.Stats.Yields)
